@@ -1855,6 +1855,24 @@ impl Fs {
         Err("No such file or directory")
     }
 
+    /// Split the pending log into the data ops (writes, size changes) of the
+    /// file visible at `path` and the rest.
+    ///
+    /// The inode of a file with a pending rename (or of a hard link) still
+    /// lives under the name `resolve_content_path` gives, and that is the key
+    /// its pending data ops carry; `path` itself may have no inode yet.
+    /// Returns that name, the selected ops and the remaining ops.
+    fn split_file_data_ops(&mut self, path: &Path) -> (PathBuf, Vec<PendingOp>, Vec<PendingOp>) {
+        let content_path = self.resolve_content_path(path);
+        let (to_flush, to_keep): (Vec<_>, Vec<_>) =
+            self.pending.drain(..).partition(|op| match op {
+                PendingOp::Write { path: p, .. } => p == &content_path,
+                PendingOp::SetLen { path: p, .. } => p == &content_path,
+                _ => false,
+            });
+        (content_path, to_flush, to_keep)
+    }
+
     /// Sync a file (makes file data and metadata durable).
     ///
     /// This is equivalent to fsync() on a file descriptor. It flushes:
@@ -1872,12 +1890,8 @@ impl Fs {
 
         // Flush pending ops that affect this file's DATA only
         // CreateFile is a directory entry op, handled by sync_dir
-        let (to_flush, to_keep): (Vec<_>, Vec<_>) =
-            self.pending.drain(..).partition(|op| match op {
-                PendingOp::Write { path: p, .. } => p == path,
-                PendingOp::SetLen { path: p, .. } => p == path,
-                _ => false,
-            });
+        let (content_path, to_flush, to_keep) = self.split_file_data_ops(path);
+        let path = content_path.as_path();
 
         // Ensure file exists in persisted_files for writes to be applied
         // (CreateFile may still be pending in to_keep, but we need somewhere to write data)
@@ -1914,12 +1928,8 @@ impl Fs {
         }
 
         // Flush only data ops (Write, SetLen), NOT CreateFile
-        let (to_flush, to_keep): (Vec<_>, Vec<_>) =
-            self.pending.drain(..).partition(|op| match op {
-                PendingOp::Write { path: p, .. } => p == path,
-                PendingOp::SetLen { path: p, .. } => p == path,
-                _ => false,
-            });
+        let (content_path, to_flush, to_keep) = self.split_file_data_ops(path);
+        let path = content_path.as_path();
 
         // Ensure file exists in persisted_files for data ops to be applied
         // (CreateFile may still be pending in to_keep)
